@@ -320,7 +320,7 @@ func c01LinLoop(f int, per time.Duration, slope float64, stalls []int64) Case {
 
 // ---- sine pacer: closed loop in virtual time ------------------------------------------------------
 func c01SineGen(rng *rand.Rand, idx int) Case {
-	period := []int64{1e9, 10e9, 60e9, 1200e9, 1e15}[rng.Intn(5)]
+	period := []int64{1e9, 10e9, 60e9, 1200e9, 1e15, 2500e6, 500e6, 1500e6, 7300e6 + 1}[rng.Intn(9)]
 	mf := int64(1 + rng.Intn(1000))
 	mp := int64(1e9)
 	if rng.Intn(4) == 0 {
